@@ -54,6 +54,9 @@ def disagrees(case, obs):
         got = markers_of(case, obs)
         if got is None:
             return False  # no impl was generated at all (the macro refuses the item): nothing to compare; acceptance is C05's subject
+        if case.get("only_field_types"):
+            # C03 looks at the field-type bounds only (the explicit levels are C04's subject and not part of the reference here)
+            return got[1] != sorted(case["expected_field_types"])
         return got != [sorted(common.norm(m) for m in case["expected_markers"]), sorted(case["expected_field_types"])]
     if k == "dump":
         return obs["dump_diff"] not in (None, "skip")
